@@ -68,7 +68,26 @@ func (t *c07T) Logf(format string, args ...any) {}
 
 // ---------------------------------------------------------------- runner
 
+// c07SM is the fixture's service manager, except that GetNextBlockVersion can also answer for
+// results that are not finalized yet (the real one reads the state from the database, where the
+// state of an imported but unfinalized block is not flushed, and silently falls back to the
+// default version). The table holds, per block result, the value the real service manager
+// returns for that result once it is finalized (checked by the oracle at every Finalize).
+type c07SM struct {
+	module.ServiceManager
+	ver map[string]int
+}
+
+func (s *c07SM) GetNextBlockVersion(result []byte) int {
+	if v, ok := s.ver[string(result)]; ok {
+		return v
+	}
+	return s.ServiceManager.GetNextBlockVersion(result)
+}
+
 type c07Node struct {
+	sv     int // next-block-version variable in the state of blk.Result() (0 = unset)
+	txnv   int // version set by a transaction this block carries (0 = none)
 	blk    module.Block
 	cand   module.BlockCandidate
 	parent int
@@ -80,6 +99,7 @@ type c07Node struct {
 type c07Runner struct {
 	t       *c07T
 	nd      *test.Node
+	sm      *c07SM
 	wallets []module.Wallet
 	strange module.Wallet
 	nodes   []*c07Node
@@ -145,7 +165,10 @@ func (r *c07Runner) start(nval int) string {
 		"chain": {"validatorList": [ %s ]}
 	}`, strings.Join(vs, ", "))
 	c07Quiet(func() {
-		r.nd = test.NewNode(r.t, test.UseGenesis(gs))
+		r.nd = test.NewNode(r.t, test.UseGenesis(gs), test.UseSMFactory(func(ctx *test.NodeContext) module.ServiceManager {
+			r.sm = &c07SM{test.NewServiceManager(ctx.C, ctx.Platform, ctx.CM, ctx.EM), map[string]int{}}
+			return r.sm
+		}))
 	})
 	if len(r.t.errs) > 0 {
 		return "harness-error:newnode:" + c07Short(r.t.errs[0])
@@ -388,6 +411,10 @@ func (r *c07Runner) finalize(j int, o *Oracle) string {
 		return "nofin"
 	}
 	o.Count("fin-ok")
+	// the version table of the harness says what the real service manager says once the state is flushed
+	realV := r.sm.ServiceManager.GetNextBlockVersion(nd.blk.Result())
+	o.Check(realV == r.sm.ver[string(nd.blk.Result())], "harness-version-table-inconsistent",
+		"real GetNextBlockVersion of finalized block %d is %d, table says %d", j, realV, r.sm.ver[string(nd.blk.Result())])
 	// the finalized chain must stay linked (oracle on the real objects)
 	o.Check(nd.parent == r.fin, "finalized-non-child", "finalized node %d whose parent %d is not the last finalized %d", j, nd.parent, r.fin)
 	r.fin = j
@@ -421,13 +448,18 @@ func (r *c07Runner) cand(a []string, o *Oracle) string {
 	P := r.nodes[pi]
 	// NV: the candidate carries a transaction that sets the chain's next block version
 	var nvTx []byte
+	var nvK int32
+	hasNV := false
 	if a[8] != "-" {
 		k, ok := c07ParseI64(a[8])
 		if !ok || k < -2147483648 || k > 2147483647 {
 			return "bad-op"
 		}
-		k32 := int32(k)
-		nvTx = test.NewTx().SetNextBlockVersion(&k32).SetTimestamp(int64(r.serial) + 1).Bytes()
+		if k == 0 {
+			return "bad-op"
+		}
+		nvK = int32(k)
+		hasNV = true
 	}
 	dh, ok := c07ParseI64(a[1])
 	if !ok {
@@ -531,7 +563,13 @@ func (r *c07Runner) cand(a []string, o *Oracle) string {
 	h2.PrevID = prevID
 	h2.VotesHash = votes.Hash()
 	b2.Votes = votes.Bytes()
-	if nvTx != nil {
+	if hasNV && (ts >= 1<<60 || ts <= -(1<<60)) {
+		// transaction expiry arithmetic near the int64 limits is not this property's business
+		return "bad-op"
+	}
+	if hasNV {
+		// timestamp of the transaction = timestamp of the block (inside the expiry window)
+		nvTx = test.NewTx().SetNextBlockVersion(&nvK).SetTimestamp(ts).Bytes()
 		tx, terr := r.nd.SM.TransactionFromBytes(nvTx, module.BlockVersion2)
 		if terr != nil {
 			return "harness-error:tx:" + c07Short(terr.Error())
@@ -698,7 +736,17 @@ func (r *c07Runner) cand(a []string, o *Oracle) string {
 			return "harness-error:duplicate-id"
 		}
 		r.byID[id] = len(r.nodes)
-		r.nodes = append(r.nodes, &c07Node{blk: accepted, cand: accepted, parent: parIdx, alive: true})
+		nn := &c07Node{blk: accepted, cand: accepted, parent: parIdx, alive: true, txnv: int(nvK)}
+		nn.sv = par.sv
+		if par.txnv != 0 {
+			nn.sv = par.txnv
+		}
+		want := 2
+		if nn.sv != 0 {
+			want = nn.sv
+		}
+		r.sm.ver[string(accepted.Result())] = want
+		r.nodes = append(r.nodes, nn)
 		if accepted.Height() >= 4 {
 			o.Count("accepted-at-height>=4")
 		}
@@ -769,18 +817,66 @@ func c07Gen(g *Gen) {
 		}
 		left -= ops
 		acc := 1 // the generator's guess of the number of accepted blocks (genesis included)
+		// guess of the version state at the newest accepted block: svTip = version variable in its
+		// result (0 = unset, default 2), txTip = version set by a transaction it carries (0 = none)
+		svTip, txTip := 0, 0
+		verOf := func(sv int) int {
+			if sv == 0 {
+				return 2
+			}
+			return sv
+		}
+		valid := func(nv int) {
+			vs := "-"
+			if acc > 1 {
+				vs, _ = c07Votes(g, nval, true)
+				vs = c07Positive(vs) // median above the parent's timestamp
+			}
+			nvs := "-"
+			if nv != 0 {
+				nvs = strconv.Itoa(nv)
+			}
+			g.Emit("cand -1 0 par %d par ok %s m0 %s", verOf(svTip), vs, nvs)
+			acc++
+			if txTip != 0 {
+				svTip = txTip
+			}
+			txTip = nv
+		}
+		probe := func(p int) {
+			// old / new / unrelated version on parent p, everything else valid
+			vs := "-"
+			if acc > 1 {
+				vs, _ = c07Votes(g, nval, true)
+				vs = c07Positive(vs)
+			}
+			g.Emit("cand %d 0 par %d par ok %s m0 -", p, g.Pick(2, 3, 2, 3, 1, 4), vs)
+		}
 		for i := 0; i < ops; i++ {
 			c := g.Intn(100)
 			switch {
+			case c < 4 && acc > 1:
+				// directed: the required version changes at an imported, not yet finalized parent
+				k := g.Pick(3, 3, 2, 1)
+				valid(k) // A carries the transaction
+				g.Emit("finup")
+				valid(0) // B: its result records the new version; B stays unfinalized
+				for j := 0; j < 3; j++ {
+					probe(-1) // on B (unfinalized, requires k)
+					probe(-2) // on A (finalized, requires the old version)
+				}
+				g.Emit("finup") // now B is the last finalized block and requires k (no handler if k != 2)
+				for j := 0; j < 3; j++ {
+					probe(-1)
+				}
+				i += 12
 			case c < 25:
 				// fully valid extension of the newest accepted block
-				vs := "-"
-				if acc > 1 {
-					vs, _ = c07Votes(g, nval, true)
-					vs = c07Positive(vs) // median above the parent's timestamp
+				nv := 0
+				if g.Intn(8) == 0 {
+					nv = g.Pick(3, 2, 3, 1)
 				}
-				g.Emit("cand -1 0 par 2 par ok %s m0", vs)
-				acc++
+				valid(nv)
 				if g.Intn(10) < 7 {
 					g.Emit("finup")
 				}
@@ -793,7 +889,7 @@ func c07Gen(g *Gen) {
 					g.Emit("fin %d", g.Intn(acc+2))
 				}
 			default:
-				c07Mutant(g, nval, acc)
+				c07Mutant(g, nval, acc, verOf(svTip))
 			}
 		}
 	}
@@ -817,13 +913,16 @@ func c07Positive(vs string) string {
 	return strings.Join(parts, ",")
 }
 
-func c07Mutant(g *Gen, nval, acc int) {
+func c07Mutant(g *Gen, nval, acc int, reqVer int) {
 	// start from a valid candidate on some parent and deviate in 0..3 fields
 	p := -1
 	if g.Intn(4) == 0 {
 		p = g.Intn(acc + 1)
 	}
-	dh, prev, ver, vt, cls, ts := 0, "par", 2, "par", "ok", "m0"
+	dh, prev, ver, vt, cls, ts := 0, "par", reqVer, "par", "ok", "m0"
+	if p == -1 && g.Intn(10) == 0 {
+		p = -2
+	}
 	vs, cnt := c07Votes(g, nval, true)
 	if g.Intn(6) > 0 {
 		vs = c07Positive(vs)
@@ -839,7 +938,7 @@ func c07Mutant(g *Gen, nval, acc int) {
 		case 1:
 			prev = []string{"rand", fmt.Sprintf("n%d", g.Intn(acc+1)), fmt.Sprintf("n%d", g.Intn(acc+1))}[g.Intn(3)]
 		case 2:
-			ver = g.Pick(1, 3, 0, -1, 2147483647)
+			ver = g.Pick(1, 3, 2, 3, 0, -1, 2147483647)
 		case 3, 4:
 			// timestamp: around the median, around the parent, absolute
 			switch g.Intn(4) {
@@ -880,5 +979,9 @@ func c07Mutant(g *Gen, nval, acc int) {
 	if cls == "dup" && cnt < 2 || cls == "str" && cnt < 1 {
 		cls = "ok"
 	}
-	g.Emit("cand %d %d %s %d %s %s %s %s", p, dh, prev, ver, vt, cls, vs, ts)
+	nv := "-"
+	if g.Intn(25) == 0 {
+		nv = strconv.Itoa(g.Pick(3, 2, 1))
+	}
+	g.Emit("cand %d %d %s %d %s %s %s %s %s", p, dh, prev, ver, vt, cls, vs, ts, nv)
 }
